@@ -78,6 +78,45 @@ fn real_main(args: &[String]) -> i32 {
             println!("{}", J::Arr(steps.iter().map(|x| x.to_json()).collect()).pretty());
             0
         }
+        "stackchild" => {
+            // decode the deepest nesting the message limit allows on a thread with the given stack size
+            let size: usize = args.get(2).and_then(|v| v.parse().ok()).unwrap_or(1 << 20);
+            let kind: u8 = args.get(3).and_then(|v| v.parse().ok()).unwrap_or(0);
+            let h = std::thread::Builder::new().stack_size(size).spawn(move || {
+                let msg = stack_probe_message(kind);
+                let ok = ctap_types::ctap2::Request::deserialize(&msg).is_ok();
+                let _ = ok;
+                0
+            });
+            match h {
+                Ok(j) => j.join().unwrap_or(3),
+                Err(_) => 3,
+            }
+        }
+        "stackprobe" => {
+            // smallest power-of-two stack on which the deepest nesting decodes without the process dying
+            let exe = std::env::current_exe().expect("current_exe");
+            let mut out = Vec::new();
+            for kind in 0..3u8 {
+                let mut size = 16usize << 10;
+                let mut ok_at = None;
+                while size <= (64 << 20) {
+                    let st = std::process::Command::new(&exe).arg("stackchild").arg(size.to_string()).arg(kind.to_string()).stdout(std::process::Stdio::null()).stderr(std::process::Stdio::null()).status();
+                    if matches!(st, Ok(s) if s.code() == Some(0)) {
+                        ok_at = Some(size);
+                        break;
+                    }
+                    size *= 2;
+                }
+                out.push(obj(vec![
+                    ("nesting", s(["arrays inside an unknown options member", "maps inside an unknown options member", "tags inside an unknown options member"][kind as usize])),
+                    ("levels", json::i(stack_probe_levels(kind))),
+                    ("smallest_sufficient_stack_bytes_power_of_two", match ok_at { Some(v) => json::i(v), None => J::Null }),
+                ]));
+            }
+            println!("{}", J::Arr(out).compact());
+            0
+        }
         "inproc" => {
             // in-process execution of a run range without worker processes or files: what Miri interprets
             let (Some(prop), Some(tier)) = (args.get(2).and_then(|p| Prop::parse(p)), args.get(3)) else { return usage() };
@@ -235,4 +274,29 @@ fn required_probes(p: Prop) -> Vec<&'static str> {
         Prop::C17 => c17::REQUIRED_PROBES.to_vec(),
         Prop::C19 => c19::REQUIRED_PROBES.to_vec(),
     }
+}
+
+fn stack_probe_levels(kind: u8) -> usize {
+    // 7609-byte limit minus the surrounding MakeCredential message (about 120 bytes); maps cost two bytes per level
+    let budget = 7609 - 130;
+    if kind == 1 { budget / 2 } else { budget }
+}
+
+fn stack_probe_message(kind: u8) -> Vec<u8> {
+    use cbor::{t, V};
+    let mut rng = prng::Rng::new(1, 1, 99);
+    let sc = schema::make_credential();
+    let root = schema::gen_map(&sc, &mut rng, schema::GenMode::Min);
+    // options map with one unknown member holding the nested value
+    let nested = faults::nested(kind, stack_probe_levels(kind), V::U(0));
+    let root = match root {
+        V::M(mut m) => {
+            m.push((cbor::int(7), V::M(vec![(t("zz"), nested)])));
+            V::M(m)
+        }
+        o => o,
+    };
+    let mut msg = vec![0x01];
+    cbor::enc_into(&mut msg, &root);
+    msg
 }
